@@ -8,7 +8,8 @@ import json, os, subprocess, sys, glob, collections
 rnd = sys.argv[1]
 ids = sys.argv[2:]
 props = {json.loads(l)["id"]: json.loads(l) for l in open("/verif/properties.jsonl")}
-tried = json.load(open("/tmp/tried.json")) if os.path.exists("/tmp/tried.json") else {}
+TRIED = "/verif/seeded/tried.json"
+tried = json.load(open(TRIED)) if os.path.exists(TRIED) else {}
 used = collections.defaultdict(set)
 for m in glob.glob("/verif/seeded/*/meta.json"):
     j = json.load(open(m))
